@@ -211,7 +211,7 @@ def main():
         "allocation outcomes are arbitrary inputs (theorems hold for all of them)",
         "hash_map, std::list, std::multimap behave as finite maps / sequences",
     ]
-    c.translate("c07.py")
+    c.translate("c07.py", "--cache-only")
     c.translate("c08.py")
     proved = c.prove(["Cppcms.C08.Props"], OBLIGATIONS, exe="c08_model")
     if c.tier == "thorough" and proved:
@@ -226,6 +226,22 @@ def main():
     if c.replay_path:
         rp = json.load(open(c.replay_path))
         h, shm, ko = rp.get("history", []), rp.get("shm", H.DEFAULT_SHM), rp.get("keys_oracle", False)
+        if h and h[0].startswith("binit"):
+            bbin = c.harness("c08", link_libs=False)
+            plain = [" ".join(l.split()[:2]) for l in h]
+            rc, o, err = c.run_lines(bbin, plain) if bbin else (1, [], "harness c08 does not build")
+            for i, l in enumerate(plain):
+                print("case :", l); print("impl :", o[i] if i < len(o) else None)
+            why = buddy_fails(c, bbin, [l for l in plain if l != "bfreeall"]) if bbin else "no harness"
+            print("judge:", why or "ok")
+            if why:
+                c.violation("replayed allocator sequence fails: " + why, {"history": plain})
+            c.finish()
+        if h and h[0].startswith("new process") and "avail" in h:
+            rc, o, err = c.run_lines(hbin, h, [str(shm)])
+            for i, l in enumerate(h[-40:]):
+                print("case :", l[:120]); print("impl :", (o[len(h) - 40 + i] if len(h) - 40 + i < len(o) else "")[:120])
+            c.finish()
         k, verdict, raw, mout, err = R.judge_history(h, shm, ko, "JL" if ko else "J8")
         cen = H.check_census(h, raw, [0] * len(h))
         for i, l in enumerate(h):
